@@ -1,6 +1,515 @@
-//! `vh kerning`: see /verif/docs/MODULE_CONTRACT.md
+//! `vh kerning`: an independent GPOS pair-positioning evaluator (C09).
+//!
+//! Reads ndjson requests on stdin (or from the file given as first argument), writes one JSON line each.
+//!
+//! request: {"tag": "...", "font": "<path>", "feature": "kern" (default),
+//!           "scripts": ["DFLT","latn"]      (default: every script of the GPOS script list),
+//!           "glyphs": ["a","b",...]          (glyph names; default: every glyph of the font),
+//!           "locs": [{"name": "m0", "norm": [0.0]} | {"name": "m1", "user": [700.0]}, ...],
+//!           "structure": true                (also dump lookups / subtables of the feature)}
+//! result:  {"tag", "outcome": "ok"|"error"|"panic", "message",
+//!           "glyphs": [...], "missing": [names not in the font], "has_gpos": bool,
+//!           "scripts": {"latn": {"lookups": [idx...]}, ...}      (default language system only)
+//!           "adj":   {"latn": [ per loc: [ per first glyph: [ per second glyph: xAdvance adjustment ]]]},
+//!           "place": {"latn": ...same shape, xPlacement of the first glyph (RTL kerning)},
+//!           "other": true if any yAdvance/yPlacement/second-glyph value was met (never produced by kerning),
+//!           "unsupported": ["..."]   lookups of the feature that are not pair positioning,
+//!           "structure": {"<lookup index>": {"flag": n, "subtables": [...]}}}
+//!
+//! Nothing of fontc / fontbe / write-fonts' builders is used: the tables are walked with read-fonts'
+//! raw accessors the way an OpenType shaper does for a two-glyph run [first, second]:
+//!   * the lookups of the feature (default LangSys of the script) are applied in lookup-list order,
+//!   * each lookup applies at most once at the position of the first glyph: its subtables are tried in
+//!     order and the first one that *matches* ends the lookup,
+//!   * PairPos format 1 matches iff the first glyph is covered AND its PairSet lists the second glyph,
+//!   * PairPos format 2 matches iff the first glyph is covered (class 0 of ClassDef2 is a real class:
+//!     an all-zero record still ends the lookup),
+//!   * the adjustment of a matching record is xAdvance (+ the delta of its VariationIndex device, looked up
+//!     in the GDEF item variation store at the requested normalized location, rounded like a shaper does),
+//!   * lookup flags: a glyph the flag tells the shaper to skip can be neither the first nor the second
+//!     glyph of the pair, so the lookup is not applied to such a pair.
 
-pub fn run(_args: &[String]) -> i32 {
-    eprintln!("vh kerning: not implemented yet");
-    2
+use std::collections::{BTreeMap, BTreeSet};
+use std::io::{BufRead, Read};
+
+use serde_json::{Map, Value, json};
+use skrifa::raw::{
+    FontData, FontRef, ReadError, TableProvider,
+    tables::{
+        gdef::Gdef,
+        gpos::{ExtensionSubtable, PairPos, PairPosFormat1, PairPosFormat2, PositionLookup, ValueRecord},
+        layout::{DeviceOrVariationIndex, LookupFlag},
+        variations::{DeltaSetIndex, ItemVariationStore},
+    },
+    types::{F2Dot14, GlyphId16, Tag},
+};
+
+use crate::fontutil;
+
+type R<T> = Result<T, String>;
+
+fn re(e: ReadError) -> String {
+    format!("read error: {e}")
+}
+
+/// What one matching record contributes.
+#[derive(Default, Clone, Copy)]
+struct Adj {
+    x_adv: i32,
+    x_place: i32,
+    other: bool,
+}
+
+struct Ctx<'a> {
+    ivs: Option<ItemVariationStore<'a>>,
+    gdef: Option<Gdef<'a>>,
+}
+
+impl<'a> Ctx<'a> {
+    fn delta(&self, dev: Option<Result<DeviceOrVariationIndex<'a>, ReadError>>, coords: &[F2Dot14]) -> R<i32> {
+        match dev {
+            None => Ok(0),
+            Some(Err(e)) => Err(re(e)),
+            Some(Ok(DeviceOrVariationIndex::VariationIndex(vi))) => {
+                let Some(ivs) = &self.ivs else {
+                    return Err("VariationIndex without a GDEF item variation store".into());
+                };
+                ivs.compute_delta(
+                    DeltaSetIndex {
+                        outer: vi.delta_set_outer_index(),
+                        inner: vi.delta_set_inner_index(),
+                    },
+                    coords,
+                )
+                .map_err(re)
+            }
+            // hinting device tables do not apply to unscaled design units
+            Some(Ok(DeviceOrVariationIndex::Device(_))) => Ok(0),
+        }
+    }
+
+    fn value(&self, rec: &ValueRecord, data: FontData<'a>, coords: &[F2Dot14]) -> R<Adj> {
+        let mut a = Adj {
+            x_adv: rec.x_advance().unwrap_or(0) as i32,
+            x_place: rec.x_placement().unwrap_or(0) as i32,
+            other: rec.y_advance().unwrap_or(0) != 0 || rec.y_placement().unwrap_or(0) != 0,
+        };
+        a.x_adv += self.delta(rec.x_advance_device(data), coords)?;
+        a.x_place += self.delta(rec.x_placement_device(data), coords)?;
+        if self.delta(rec.y_advance_device(data), coords)? != 0
+            || self.delta(rec.y_placement_device(data), coords)? != 0
+        {
+            a.other = true;
+        }
+        Ok(a)
+    }
+
+    fn glyph_class(&self, gid: u16) -> u16 {
+        self.gdef
+            .as_ref()
+            .and_then(|g| g.glyph_class_def())
+            .and_then(|r| r.ok())
+            .map(|cd| cd.get(GlyphId16::new(gid)))
+            .unwrap_or(0)
+    }
+
+    /// Would a shaper skip this glyph under this lookup flag?
+    fn skipped(&self, gid: u16, flag: LookupFlag, mark_set: Option<u16>) -> bool {
+        let class = self.glyph_class(gid);
+        if class == 1 && flag.contains(LookupFlag::IGNORE_BASE_GLYPHS) {
+            return true;
+        }
+        if class == 2 && flag.contains(LookupFlag::IGNORE_LIGATURES) {
+            return true;
+        }
+        if class == 3 {
+            if flag.contains(LookupFlag::IGNORE_MARKS) {
+                return true;
+            }
+            if flag.contains(LookupFlag::USE_MARK_FILTERING_SET) {
+                let in_set = mark_set
+                    .and_then(|k| {
+                        let sets = self.gdef.as_ref()?.mark_glyph_sets_def()?.ok()?;
+                        let cov = sets.coverages().get(k as usize).ok()?;
+                        Some(cov.get(GlyphId16::new(gid)).is_some())
+                    })
+                    .unwrap_or(false);
+                if !in_set {
+                    return true;
+                }
+            }
+            if let Some(mac) = flag.mark_attachment_class() {
+                let got = self
+                    .gdef
+                    .as_ref()
+                    .and_then(|g| g.mark_attach_class_def())
+                    .and_then(|r| r.ok())
+                    .map(|cd| cd.get(GlyphId16::new(gid)))
+                    .unwrap_or(0);
+                if got != mac {
+                    return true;
+                }
+            }
+        }
+        false
+    }
+}
+
+/// Some((value of the first glyph, value of the second glyph is non-empty)) if the subtable matches.
+fn apply_format1<'a>(cx: &Ctx<'a>, t: &PairPosFormat1<'a>, l: u16, r: u16, coords: &[F2Dot14]) -> R<Option<Adj>> {
+    let cov = t.coverage().map_err(re)?;
+    let Some(ci) = cov.get(GlyphId16::new(l)) else {
+        return Ok(None);
+    };
+    let set = t.pair_sets().get(ci as usize).map_err(re)?;
+    for rec in set.pair_value_records().iter() {
+        let rec = rec.map_err(re)?;
+        if rec.second_glyph().to_u16() == r {
+            let mut a = cx.value(rec.value_record1(), set.offset_data(), coords)?;
+            let b = cx.value(rec.value_record2(), set.offset_data(), coords)?;
+            if b.x_adv != 0 || b.x_place != 0 || b.other {
+                a.other = true;
+            }
+            return Ok(Some(a));
+        }
+    }
+    Ok(None)
+}
+
+fn apply_format2<'a>(cx: &Ctx<'a>, t: &PairPosFormat2<'a>, l: u16, r: u16, coords: &[F2Dot14]) -> R<Option<Adj>> {
+    let cov = t.coverage().map_err(re)?;
+    if cov.get(GlyphId16::new(l)).is_none() {
+        return Ok(None);
+    }
+    let c1 = t.class_def1().map_err(re)?.get(GlyphId16::new(l));
+    let c2 = t.class_def2().map_err(re)?.get(GlyphId16::new(r));
+    if c1 >= t.class1_count() || c2 >= t.class2_count() {
+        return Ok(None);
+    }
+    let rec1 = t.class1_records().get(c1 as usize).map_err(re)?;
+    let rec2 = rec1.class2_records().get(c2 as usize).map_err(re)?;
+    let mut a = cx.value(rec2.value_record1(), t.offset_data(), coords)?;
+    let b = cx.value(rec2.value_record2(), t.offset_data(), coords)?;
+    if b.x_adv != 0 || b.x_place != 0 || b.other {
+        a.other = true;
+    }
+    Ok(Some(a))
+}
+
+fn pair_subtables<'a>(lookup: &PositionLookup<'a>) -> R<Option<(LookupFlag, Option<u16>, Vec<PairPos<'a>>)>> {
+    match lookup {
+        PositionLookup::Pair(l) => {
+            let subs: Result<Vec<_>, _> = l.subtables().iter().collect();
+            Ok(Some((l.lookup_flag(), l.mark_filtering_set(), subs.map_err(re)?)))
+        }
+        PositionLookup::Extension(l) => {
+            let mut subs = Vec::new();
+            for s in l.subtables().iter() {
+                match s.map_err(re)? {
+                    ExtensionSubtable::Pair(e) => subs.push(e.extension().map_err(re)?),
+                    _ => return Ok(None),
+                }
+            }
+            Ok(Some((l.lookup_flag(), l.mark_filtering_set(), subs)))
+        }
+        _ => Ok(None),
+    }
+}
+
+fn describe_subtable(t: &PairPos, names: &[String]) -> R<Value> {
+    let name = |g: u16| names.get(g as usize).cloned().unwrap_or_else(|| format!("gid{g}"));
+    match t {
+        PairPos::Format1(t) => {
+            let cov = t.coverage().map_err(re)?;
+            let mut pairs = Vec::new();
+            let mut variable = false;
+            for (ci, g) in cov.iter().enumerate() {
+                let set = t.pair_sets().get(ci).map_err(re)?;
+                for rec in set.pair_value_records().iter() {
+                    let rec = rec.map_err(re)?;
+                    let v = rec.value_record1();
+                    let has_dev = v.x_advance_device(set.offset_data()).is_some();
+                    variable |= has_dev;
+                    pairs.push(json!([name(g.to_u16()), name(rec.second_glyph().to_u16()),
+                        v.x_advance().unwrap_or(0), has_dev]));
+                }
+            }
+            Ok(json!({"format": 1, "vf1": t.value_format1().bits(), "vf2": t.value_format2().bits(),
+                "variable": variable, "pairs": pairs}))
+        }
+        PairPos::Format2(t) => {
+            let cov = t.coverage().map_err(re)?;
+            let cd1 = t.class_def1().map_err(re)?;
+            let cd2 = t.class_def2().map_err(re)?;
+            let mut classes1: BTreeMap<u16, Vec<String>> = BTreeMap::new();
+            for g in cov.iter() {
+                classes1.entry(cd1.get(g)).or_default().push(name(g.to_u16()));
+            }
+            let mut classes2: BTreeMap<u16, Vec<String>> = BTreeMap::new();
+            for (g, n) in names.iter().enumerate() {
+                let c = cd2.get(GlyphId16::new(g as u16));
+                if c != 0 {
+                    classes2.entry(c).or_default().push(n.clone());
+                }
+            }
+            let mut records = Vec::new();
+            for (c1, r1) in t.class1_records().iter().enumerate() {
+                let r1 = r1.map_err(re)?;
+                for (c2, r2) in r1.class2_records().iter().enumerate() {
+                    let r2 = r2.map_err(re)?;
+                    let v = r2.value_record1();
+                    let has_dev = v.x_advance_device(t.offset_data()).is_some();
+                    if v.x_advance().unwrap_or(0) != 0 || has_dev {
+                        records.push(json!([c1, c2, v.x_advance().unwrap_or(0), has_dev]));
+                    }
+                }
+            }
+            Ok(json!({"format": 2, "vf1": t.value_format1().bits(), "vf2": t.value_format2().bits(),
+                "class1": classes1.into_iter().map(|(k, v)| (k.to_string(), v)).collect::<BTreeMap<_, _>>(),
+                "class2": classes2.into_iter().map(|(k, v)| (k.to_string(), v)).collect::<BTreeMap<_, _>>(),
+                "nclass1": t.class1_count(), "nclass2": t.class2_count(), "records": records}))
+        }
+    }
+}
+
+fn evaluate(req: &Value) -> R<Value> {
+    let path = req.get("font").and_then(|v| v.as_str()).ok_or("no font")?;
+    let bytes = std::fs::read(path).map_err(|e| format!("{path}: {e}"))?;
+    let font = FontRef::new(&bytes).map_err(|e| format!("cannot parse font: {e}"))?;
+    let names = fontutil::glyph_names(&font);
+    let feature_tag = Tag::new_checked(req.get("feature").and_then(|v| v.as_str()).unwrap_or("kern").as_bytes())
+        .map_err(|e| format!("bad feature tag: {e}"))?;
+
+    // glyphs of interest
+    let mut missing = Vec::new();
+    let glyphs: Vec<(String, u16)> = match req.get("glyphs").and_then(|v| v.as_array()) {
+        Some(list) => list
+            .iter()
+            .filter_map(|v| v.as_str())
+            .filter_map(|n| match names.iter().position(|x| x == n) {
+                Some(i) => Some((n.to_string(), i as u16)),
+                None => {
+                    missing.push(n.to_string());
+                    None
+                }
+            })
+            .collect(),
+        None => names.iter().enumerate().map(|(i, n)| (n.clone(), i as u16)).collect(),
+    };
+
+    // locations
+    let n_axes = font.fvar().map(|f| f.axis_count() as usize).unwrap_or(0);
+    let mut locs: Vec<Vec<F2Dot14>> = Vec::new();
+    for l in req.get("locs").and_then(|v| v.as_array()).cloned().unwrap_or_default() {
+        let nums = |k: &str| -> Option<Vec<f64>> {
+            l.get(k)?.as_array().map(|a| a.iter().filter_map(|x| x.as_f64()).collect())
+        };
+        let coords = if let Some(n) = nums("norm") {
+            fontutil::f2dot14s(&n)
+        } else if let Some(u) = nums("user") {
+            fontutil::normalize_user(&font, &u)
+        } else {
+            vec![]
+        };
+        let mut coords = coords;
+        coords.resize(n_axes, F2Dot14::ZERO);
+        locs.push(coords);
+    }
+    if locs.is_empty() {
+        locs.push(vec![F2Dot14::ZERO; n_axes]);
+    }
+
+    let mut out = Map::new();
+    out.insert("glyphs".into(), json!(glyphs.iter().map(|g| g.0.clone()).collect::<Vec<_>>()));
+    out.insert("missing".into(), json!(missing));
+    out.insert("locs_f2dot14".into(),
+        json!(locs.iter().map(|c| c.iter().map(|x| x.to_bits()).collect::<Vec<_>>()).collect::<Vec<_>>()));
+
+    let Ok(gpos) = font.gpos() else {
+        out.insert("has_gpos".into(), json!(false));
+        out.insert("scripts".into(), json!({}));
+        out.insert("adj".into(), json!({}));
+        return Ok(Value::Object(out));
+    };
+    out.insert("has_gpos".into(), json!(true));
+    let gdef = font.gdef().ok();
+    let ivs = gdef.as_ref().and_then(|g| g.item_var_store()).and_then(|r| r.ok());
+    let cx = Ctx { ivs, gdef };
+
+    let script_list = gpos.script_list().map_err(re)?;
+    let feature_list = gpos.feature_list().map_err(re)?;
+    let lookup_list = gpos.lookup_list().map_err(re)?;
+    let wanted: Option<BTreeSet<String>> = req.get("scripts").and_then(|v| v.as_array()).map(|a| {
+        a.iter().filter_map(|x| x.as_str()).map(|s| s.to_string()).collect()
+    });
+
+    // script -> sorted lookup indices of the feature in the default language system
+    let mut script_lookups: BTreeMap<String, Vec<u16>> = BTreeMap::new();
+    for srec in script_list.script_records() {
+        let tag = srec.script_tag().to_string();
+        if let Some(w) = &wanted
+            && !w.contains(&tag)
+        {
+            continue;
+        }
+        let script = srec.script(script_list.offset_data()).map_err(re)?;
+        let Some(langsys) = script.default_lang_sys() else {
+            continue;
+        };
+        let langsys = langsys.map_err(re)?;
+        let mut idxs = BTreeSet::new();
+        let mut fidx: Vec<u16> = langsys.feature_indices().iter().map(|x| x.get()).collect();
+        if langsys.required_feature_index() != 0xFFFF {
+            fidx.push(langsys.required_feature_index());
+        }
+        for fi in fidx {
+            let Some(frec) = feature_list.feature_records().get(fi as usize) else {
+                return Err(format!("feature index {fi} out of range"));
+            };
+            if frec.feature_tag() != feature_tag {
+                continue;
+            }
+            let feature = frec.feature(feature_list.offset_data()).map_err(re)?;
+            for li in feature.lookup_list_indices() {
+                idxs.insert(li.get());
+            }
+        }
+        script_lookups.insert(tag, idxs.into_iter().collect());
+    }
+
+    // resolve the lookups used
+    let mut lookups: BTreeMap<u16, Option<(LookupFlag, Option<u16>, Vec<PairPos>)>> = BTreeMap::new();
+    let mut unsupported = Vec::new();
+    for idxs in script_lookups.values() {
+        for li in idxs {
+            if lookups.contains_key(li) {
+                continue;
+            }
+            let l = lookup_list.lookups().get(*li as usize).map_err(re)?;
+            let p = pair_subtables(&l)?;
+            if p.is_none() {
+                unsupported.push(format!("lookup {li} is not pair positioning"));
+            }
+            lookups.insert(*li, p);
+        }
+    }
+
+    let mut adj = Map::new();
+    let mut place = Map::new();
+    let mut other = false;
+    for (script, idxs) in &script_lookups {
+        let mut per_loc_a = Vec::new();
+        let mut per_loc_p = Vec::new();
+        for coords in &locs {
+            let mut ma = Vec::new();
+            let mut mp = Vec::new();
+            for (_, l) in &glyphs {
+                let mut ra = Vec::new();
+                let mut rp = Vec::new();
+                for (_, r) in &glyphs {
+                    let mut tot = Adj::default();
+                    for li in idxs {
+                        let Some(Some((flag, mset, subs))) = lookups.get(li) else {
+                            continue;
+                        };
+                        if cx.skipped(*l, *flag, *mset) || cx.skipped(*r, *flag, *mset) {
+                            continue;
+                        }
+                        for t in subs {
+                            let hit = match t {
+                                PairPos::Format1(t) => apply_format1(&cx, t, *l, *r, coords)?,
+                                PairPos::Format2(t) => apply_format2(&cx, t, *l, *r, coords)?,
+                            };
+                            if let Some(a) = hit {
+                                tot.x_adv += a.x_adv;
+                                tot.x_place += a.x_place;
+                                tot.other |= a.other;
+                                break;
+                            }
+                        }
+                    }
+                    other |= tot.other;
+                    ra.push(tot.x_adv);
+                    rp.push(tot.x_place);
+                }
+                ma.push(ra);
+                mp.push(rp);
+            }
+            per_loc_a.push(ma);
+            per_loc_p.push(mp);
+        }
+        adj.insert(script.clone(), json!(per_loc_a));
+        place.insert(script.clone(), json!(per_loc_p));
+    }
+    out.insert("scripts".into(),
+        Value::Object(script_lookups.iter().map(|(k, v)| (k.clone(), json!({"lookups": v}))).collect()));
+    out.insert("adj".into(), Value::Object(adj));
+    out.insert("place".into(), Value::Object(place));
+    out.insert("other".into(), json!(other));
+    out.insert("unsupported".into(), json!(unsupported));
+
+    if req.get("structure").and_then(|v| v.as_bool()).unwrap_or(false) {
+        let mut st = Map::new();
+        for (li, l) in &lookups {
+            if let Some((flag, mset, subs)) = l {
+                let subs: R<Vec<Value>> = subs.iter().map(|t| describe_subtable(t, &names)).collect();
+                st.insert(li.to_string(), json!({"flag": flag.to_bits(), "mark_set": mset, "subtables": subs?}));
+            }
+        }
+        out.insert("structure".into(), Value::Object(st));
+    }
+    Ok(Value::Object(out))
+}
+
+pub fn run(args: &[String]) -> i32 {
+    if std::env::var("VH_PANIC_VERBOSE").is_err() {
+        std::panic::set_hook(Box::new(|_| {}));
+    }
+    let mut input = String::new();
+    let read = match args.first() {
+        Some(p) if p != "-" => std::fs::read_to_string(p).map(|s| input = s).map_err(|e| e.to_string()),
+        _ => std::io::stdin().read_to_string(&mut input).map(|_| ()).map_err(|e| e.to_string()),
+    };
+    if let Err(e) = read {
+        eprintln!("vh kerning: {e}");
+        return 2;
+    }
+    for line in input.as_bytes().lines() {
+        let Ok(line) = line else { continue };
+        if line.trim().is_empty() {
+            continue;
+        }
+        let req: Value = match serde_json::from_str(&line) {
+            Ok(v) => v,
+            Err(e) => {
+                println!("{}", json!({"outcome": "error", "message": format!("bad request: {e}")}));
+                continue;
+            }
+        };
+        let tag = req.get("tag").cloned().unwrap_or(json!(""));
+        let res = std::panic::catch_unwind(std::panic::AssertUnwindSafe(|| evaluate(&req)));
+        let mut out = match res {
+            Ok(Ok(Value::Object(m))) => {
+                let mut m = m;
+                m.insert("outcome".into(), json!("ok"));
+                m
+            }
+            Ok(Ok(_)) => unreachable!(),
+            Ok(Err(e)) => {
+                let mut m = Map::new();
+                m.insert("outcome".into(), json!("error"));
+                m.insert("message".into(), json!(e));
+                m
+            }
+            Err(p) => {
+                let mut m = Map::new();
+                m.insert("outcome".into(), json!("panic"));
+                m.insert("message".into(), json!(crate::compile::panic_message(p)));
+                m
+            }
+        };
+        out.insert("tag".into(), tag);
+        println!("{}", Value::Object(out));
+    }
+    0
 }
